@@ -26,6 +26,11 @@ func NewH264Packetizer(meta *codec.VideoMeta, tsframeWriter FrameWriter) Packeti
 
 func (h264p *h264Packetizer) Packetize(frame *codec.Frame) error {
 	nalType := frame.Payload[0] & 0x1F
+	if nalType >= h264.NalSps && nalType <= h264.NalAud {
+		// SPS/PPS/AUD 不单独输出：prepareAvcHeader 不为它们生成起始码，
+		// 关键帧前会重新插入 SPS/PPS，每个访问单元前会插入 AUD
+		return nil
+	}
 
 	dts := frame.Dts * 90000 / int64(time.Second) // 90000Hz
 	pts := frame.Pts * 90000 / int64(time.Second) // 90000Hz
